@@ -36,6 +36,29 @@ Qed.
 Lemma deliver_status app c e : snd (deliver app c e) = SOk \/ snd (deliver app c e) = SAbandon.
 Proof. unfold deliver. apply do_actions_status. Qed.
 
+(* write() in terms of elementary updates (used by the instances that do not single out writes) *)
+Section WriteFromEmit.
+  Variable P : conn -> conn -> Prop.
+  Hypothesis P_refl : forall c, P c c.
+  Hypothesis P_trans : forall a b c, P a b -> P b c -> P a c.
+  Variable ok_item : titem -> Prop.
+  Hypothesis P_emit : forall c x, ok_item x -> P c (emit x c).
+  Hypothesis ok_write : forall w, ok_item (TWrite w).
+  Hypothesis ok_writefail : forall w, ok_item (TWriteFail w).
+  Hypothesis P_wfaults : forall c x, P c (c <| k_wfaults := x |>).
+  Hypothesis P_closing : forall c, P c (c <| k_closing := true |>).
+
+  Lemma write_from_emit c d f : P c (fst (write c d f)).
+  Proof.
+    unfold write. destruct (negb (k_sock c)); [apply P_refl|]. destruct (k_closed c); [apply P_refl|].
+    destruct (k_closing c); [apply P_refl|].
+    set (c1 := if f then _ else c). assert (H1 : P c c1) by (unfold c1; destruct f; auto).
+    unfold pop_wfault. destruct (k_wfaults c1) as [|w ws]; cbn [fst].
+    - eapply P_trans; [exact H1|]. apply P_emit. apply ok_write.
+    - destruct w; cbn [fst]; (eapply P_trans; [exact H1|]); (eapply P_trans; [apply P_wfaults|]); apply P_emit; auto.
+  Qed.
+End WriteFromEmit.
+
 (* ---------- a generic "frame" argument ----------
    P is any preorder on connection states that every elementary field update of the model respects.
    Then every function of the model below the parser level (everything except on_item/feed/loop, which
@@ -47,8 +70,7 @@ Section Frame.
   (* which trace items may be appended: the events are restricted per lemma *)
   Variable ok_item : titem -> Prop.
   Hypothesis P_emit : forall c x, ok_item x -> P c (emit x c).
-  Hypothesis ok_write : forall w, ok_item (TWrite w).
-  Hypothesis ok_writefail : forall w, ok_item (TWriteFail w).
+  Hypothesis P_write : forall c d f, P c (fst (write c d f)).     (* the one place where bytes reach the socket *)
   Hypothesis ok_call : forall r, ok_item (TCall r).
   Hypothesis ok_sockclose : ok_item TSockClose.
   Hypothesis ok_deflate : forall e i, ok_item (TDeflate e i).
@@ -78,13 +100,7 @@ Section Frame.
   Lemma fr_pop_wfault c : P c (snd (pop_wfault c)).
   Proof. unfold pop_wfault. destruct (k_wfaults c); cbn [snd]; auto. Qed.
   Lemma fr_write c d f : P c (fst (write c d f)).
-  Proof.
-    unfold write. destruct (negb (k_sock c)); [apply P_refl|]. destruct (k_closed c); [apply P_refl|].
-    destruct (k_closing c); [apply P_refl|].
-    set (c1 := if f then _ else c). assert (H1 : P c c1) by (unfold c1; destruct f; auto).
-    pose proof (fr_pop_wfault c1) as H. destruct (pop_wfault c1) as [w c2]. cbn [snd] in H.
-    destruct w; cbn [fst]; (tr; [exact H1|]); (tr; [exact H|]); apply fr_emit; auto.
-  Qed.
+  Proof. apply P_write. Qed.
   Lemma fr_send_frame c op r p : P c (fst (send_frame c op r p)).
   Proof.
     unfold send_frame. pose proof (fr_pop_key c) as H. destruct (pop_key c) as [k c1]. cbn [snd] in H.
@@ -291,7 +307,9 @@ End Frame.
 
 (* ---------- instance: the parser state is untouched ---------- *)
 Definition same_ps (c c' : conn) : Prop := k_ps c' = k_ps c.
-Ltac inst_frame L := eapply L with (P := same_ps) (ok_item := fun _ => True); try (intros; reflexivity); try (unfold same_ps; intros; congruence); try (intros; exact I);
+Ltac inst_frame L := first [eapply L with (P := same_ps) (ok_item := fun _ => True) | eapply L with (P := same_ps)];
+                       try (intros; apply write_from_emit with (ok_item := fun _ => True));
+                       try (intros; reflexivity); try (unfold same_ps; intros; congruence); try (intros; exact I);
                        try (intros e0; destruct e0; exact I).
 
 Section WithCfg.
@@ -348,7 +366,8 @@ Section WithCfg.
 
   (* once closed, always closed *)
   Definition closed_mono (c c' : conn) : Prop := k_closed c = true -> k_closed c' = true.
-  Ltac inst_mono L := eapply L with (P := closed_mono) (ok_item := fun _ => True); try (unfold closed_mono; intros; cbn; auto; fail); try (unfold closed_mono; intros; eauto);
+  Ltac inst_mono L := first [eapply L with (P := closed_mono) (ok_item := fun _ => True) | eapply L with (P := closed_mono)];
+                      try (intros; apply write_from_emit with (ok_item := fun _ => True)); try (unfold closed_mono; intros; cbn; auto; fail); try (unfold closed_mono; intros; eauto);
                       try (intros; exact I).
 
   Lemma closed_feed_yield c e post : (forall c, closed_mono c (fst (post c))) -> closed_mono c (fst (feed_yield cf app c e post)).
